@@ -168,7 +168,7 @@ func judgeEmitted(c *core.Case, where string, out []byte, w emitWant, exact bool
 		default:
 			gj, err := jid.Parse(got)
 			wj, _ := jid.Parse(a.want)
-			if err != nil || !gj.Equal(wj) {
+			if err != nil || !sameJID(gj, wj) {
 				bad(a.name, got, a.want)
 			}
 		}
@@ -326,7 +326,7 @@ func emitSession(c *core.Case) {
 		h := judgeEmitted(c, "initiator header", out, emitWant{WS: ws, NS: nsOf(s2s), To: location.String(), From: origin.String(), Lang: lang}, false)
 		if h != nil && err == nil && ready(s) {
 			o := s.Out()
-			if !o.To.Equal(location) || !o.From.Equal(origin) {
+			if !sameJID(o.To, location) || !sameJID(o.From, origin) {
 				c.Violate("hdr:emit:out-info", "initiator: Out() reports to=%q from=%q, session was created for location %q origin %q", o.To, o.From, location, origin)
 			}
 			c.Count("emit_session_ready", 1)
@@ -367,7 +367,7 @@ func emitSession(c *core.Case) {
 		if s.Out().ID != id {
 			c.Violate("hdr:emit:out-info", "receiver: Out().ID=%q but the header on the wire carries id=%q", s.Out().ID, id)
 		}
-		if !s.LocalAddr().Equal(location) || (withFrom && !s.RemoteAddr().Equal(origin)) {
+		if !sameJID(s.LocalAddr(), location) || (withFrom && !sameJID(s.RemoteAddr(), origin)) {
 			c.Violate("hdr:emit:out-info", "receiver: LocalAddr=%q RemoteAddr=%q after a header to=%q from=%q", s.LocalAddr(), s.RemoteAddr(), location, ho.From)
 		}
 		c.Count("emit_session_ready", 1)
@@ -810,7 +810,7 @@ func compareInfo(c *core.Case, where string, in stream.Info, h *header, ws bool)
 			bad(a.name, a.got.String(), v+" (not an address)")
 			continue
 		}
-		if !a.got.Equal(wj) {
+		if !sameJID(a.got, wj) {
 			bad(a.name, a.got.String(), v)
 		}
 	}
@@ -976,10 +976,47 @@ type addrChoice struct {
 	Attrs   string `json:"attrs"`   // what was done to id / version
 }
 
+// sameJID compares two addresses part by part, byte for byte.  The oracle does
+// not use the library's own JID.Equal: that function is part of what the
+// address checks under test rely on.
+func sameJID(a, b jid.JID) bool {
+	return a.Localpart() == b.Localpart() && a.Domainpart() == b.Domainpart() && a.Resourcepart() == b.Resourcepart()
+}
+
+// resplits returns the valid addresses that consist of the same octets as j
+// with a domainpart of the same length, but with the boundaries between
+// localpart, domainpart and resourcepart somewhere else (juliet@example.net ->
+// julietexamp/le.net): a different address that a sloppy comparison confuses
+// with j.
+func resplits(j jid.JID) []jid.JID {
+	data := j.Localpart() + j.Domainpart() + j.Resourcepart()
+	dl := len(j.Domainpart())
+	var out []jid.JID
+	for l := 0; l+dl <= len(data); l++ {
+		if l == len(j.Localpart()) {
+			continue
+		}
+		local, dom, res := data[:l], data[l:l+dl], data[l+dl:]
+		str := dom
+		if local != "" {
+			str = local + "@" + dom
+		}
+		if res != "" {
+			str += "/" + res
+		}
+		c, err := jid.Parse(str)
+		if err != nil || c.Localpart() != local || c.Domainpart() != dom || c.Resourcepart() != res {
+			continue
+		}
+		out = append(out, c)
+	}
+	return out
+}
+
 func otherJID(r *rand.Rand, j jid.JID) jid.JID {
 	for {
 		o := genJID(r, j.Localpart() != "", b2i(j.Resourcepart() != ""))
-		if !o.Equal(j) {
+		if !sameJID(o, j) {
 			return o
 		}
 	}
@@ -1035,7 +1072,7 @@ func restart(c *core.Case) {
 		if recv && estFrom == "" {
 			h.From = "" // nothing established yet
 		}
-		switch r.Intn(9) {
+		switch r.Intn(11) {
 		case 0:
 			h.From, h.Kind = otherJID(r, peerFrom).String(), "from-changed"
 		case 1:
@@ -1044,6 +1081,14 @@ func restart(c *core.Case) {
 			h.To, h.Kind = "", "to-absent"
 		case 3:
 			h.From, h.Kind = "", "from-absent"
+		case 7:
+			if rs := resplits(peerTo); len(rs) > 0 {
+				h.To, h.Kind = rs[r.Intn(len(rs))].String(), "to-resplit"
+			}
+		case 8:
+			if rs := resplits(peerFrom); len(rs) > 0 && !(recv && estFrom == "") {
+				h.From, h.Kind = rs[r.Intn(len(rs))].String(), "from-resplit"
+			}
 		case 6:
 			h.To, h.From, h.Kind = "", "", "both-absent"
 		case 4:
@@ -1082,13 +1127,13 @@ func restart(c *core.Case) {
 		}
 		hs[i] = h
 		changed := ""
-		if h.To != "" && !mustJID(h.To).Equal(mustJID(estTo)) {
+		if h.To != "" && !sameJID(mustJID(h.To), mustJID(estTo)) {
 			changed = "to"
 		}
 		if h.From != "" {
 			if estFrom == "" {
 				estFrom = h.From
-			} else if !mustJID(h.From).Equal(mustJID(estFrom)) {
+			} else if !sameJID(mustJID(h.From), mustJID(estFrom)) {
 				changed = "from"
 			}
 		}
@@ -1187,7 +1232,7 @@ func restart(c *core.Case) {
 			if omitted > 0 {
 				c.Count("headers_omitting_address_accepted", 1)
 			}
-			if !s.LocalAddr().Equal(wantLocal) || (estFrom != "" && !s.RemoteAddr().Equal(wantRemote)) {
+			if !sameJID(s.LocalAddr(), wantLocal) || (estFrom != "" && !sameJID(s.RemoteAddr(), wantRemote)) {
 				c.Violate("hdr:restart:addr-lost", "%s: after three accepted headers %+v the session reports LocalAddr=%q RemoteAddr=%q; established were %q and %q", role(recv), hs, s.LocalAddr(), s.RemoteAddr(), estTo, estFrom)
 				return
 			}
@@ -1217,6 +1262,9 @@ func restart(c *core.Case) {
 		return
 	}
 	addr := strings.HasSuffix(badAttr, "-changed")
+	if addr && strings.HasSuffix(hs[firstBad].Kind, "-resplit") {
+		c.Count("restart_resplit_address_cases", 1)
+	}
 	if addr {
 		c.Count("restart_changed_address_cases", 1)
 	} else {
@@ -1370,6 +1418,11 @@ func streamErrCase(c *core.Case, ws, recv, afterRestart bool, cond, errEl string
 // ---------------------------------------------------------------------------
 // (c) resource binding
 
+// resourceparts that are legal but sit at the edges: leading / trailing /
+// inner spaces, quotes and markup characters, multi-byte and combining
+// characters (given in NFC, the form the library keeps).
+var edgeRes = []string{"balcony ", " balcony", " bal cony ", "  ", "a  b", "'quoted'", `"dq"`, "<b>&amp;</b>", "日本語", "ünï ", " é", "e\u0301x", "🎉 party ", "tab-less end\u00a0"}
+
 var bindResources = []string{"res", "balcony", "a'b", `x"y`, "r&d", "<tag>", "ü res", "a b", "it's", "x/y"}
 
 func bindInit(c *core.Case) {
@@ -1391,10 +1444,15 @@ func bindInit(c *core.Case) {
 	replyKind := []string{"result", "result", "result-other-resource", "result-special",
 		"result-other-local", "result-other-local", "result-other-domain", "result-domain-only", "result-unrelated",
 		"error", "wrong-id", "type-get", "type-set", "no-type", "truncated", "text", "result-no-jid", "other-element", "wrong-ns", "error-no-child"}[r.Intn(20)]
+	edge := false
 	// The server's choice is independent of what the client was configured
 	// with: same address, other resource, other or newly given localpart
 	// (anonymous login, aliased accounts), other domain, no localpart at all.
 	newRes := func() string {
+		if r.Intn(3) == 0 {
+			edge = true
+			return pick(r, edgeRes)
+		}
 		switch r.Intn(3) {
 		case 0:
 			return pick(r, hardRes)
@@ -1429,7 +1487,11 @@ func bindInit(c *core.Case) {
 	case "result-other-resource":
 		assigned, _ = origin.WithResource("srv-" + pick(r, safeIDs))
 	case "result-special":
-		assigned, _ = origin.WithResource(pick(r, hardRes))
+		if r.Intn(2) == 0 {
+			assigned, _ = origin.WithResource(newRes())
+		} else {
+			assigned, _ = origin.WithResource(pick(r, hardRes))
+		}
 	case "result-other-local":
 		// another localpart, or a localpart where the origin had none
 		assigned = mk(otherOf(origin.Localpart(), append([]string{"c5a7b3d1", "me.primary"}, locals...)), origin.Domainpart(), newRes())
@@ -1442,6 +1504,10 @@ func bindInit(c *core.Case) {
 	}
 	if assigned.Resourcepart() == "" {
 		assigned, _ = origin.WithResource("assigned")
+		edge = false
+	}
+	if edge && strings.Contains(replyKind, "result") {
+		c.Count("bind_assigned_edge_resource", 1)
 	}
 	bindInitCase(c, ws, origin, replyKind, assigned)
 }
@@ -1561,7 +1627,7 @@ func bindInitCase(c *core.Case, ws bool, origin jid.JID, replyKind string, assig
 	case "result", "result-other-resource", "result-special", "result-other-local", "result-other-domain", "result-domain-only", "result-unrelated":
 		rel := "same-bare"
 		switch {
-		case assigned.Bare().Equal(origin.Bare()):
+		case sameJID(assigned.Bare(), origin.Bare()):
 		case assigned.Domainpart() != origin.Domainpart():
 			rel = "other-domain"
 		case origin.Localpart() == "":
@@ -1583,10 +1649,10 @@ func bindInitCase(c *core.Case, ws bool, origin jid.JID, replyKind string, assig
 			if !ready(sess) {
 				c.Violate("hdr:bind:not-ready", "bind result accepted (nil error) but the session is not Ready: %v", sess.State())
 			}
-			if !sess.LocalAddr().Equal(assigned) {
+			if !sameJID(sess.LocalAddr(), assigned) {
 				c.Violate("hdr:bind:assigned-address", "server assigned %q, the session reports LocalAddr %q (origin was %q)", assigned, sess.LocalAddr(), origin)
 			}
-			if !sess.Out().From.Equal(assigned) {
+			if !sameJID(sess.Out().From, assigned) {
 				c.Violate("hdr:bind:assigned-address", "server assigned %q, Out().From is %q", assigned, sess.Out().From)
 			}
 		} else {
@@ -1675,7 +1741,7 @@ func bindRecv(c *core.Case) {
 			c.Violate("hdr:bind:callback-calls", "BindCustom callback invoked %d times for one request", len(calls))
 			return
 		}
-		if calls[0].res != reqRes || !calls[0].j.Equal(client) {
+		if calls[0].res != reqRes || !sameJID(calls[0].j, client) {
 			c.Violate("hdr:bind:callback-args", "BindCustom callback got (%q, %q); the client is %q and requested resource %q", calls[0].j, calls[0].res, client, reqRes)
 		}
 		c.Count("bind_callback_invocations", 1)
@@ -1728,9 +1794,9 @@ func bindRecv(c *core.Case) {
 	switch {
 	case jt == "" || jerr != nil:
 		c.Violate("hdr:bind:reply-jid", "reply carries no usable address (%q): %s", jt, n)
-	case mode == "custom-jid" && !got.Equal(chosen):
+	case mode == "custom-jid" && !sameJID(got, chosen):
 		c.Violate("hdr:bind:reply-jid", "callback chose %q, the reply assigns %q", chosen, got)
-	case mode == "default" && (!got.Bare().Equal(client.Bare()) || got.Resourcepart() == ""):
+	case mode == "default" && (!sameJID(got.Bare(), client.Bare()) || got.Resourcepart() == ""):
 		c.Violate("hdr:bind:reply-jid", "client %q was assigned %q (want its bare address plus a fresh resource)", client, got)
 	default:
 		c.Count("bind_replies_correct", 1)
@@ -1828,7 +1894,7 @@ func Prop() *core.Prop {
 			"header_write_failed", "header_write_failed_at_restart", "header_write_failed_at_first_header", "headers_checked_after_failed_write", "sessions_after_failed_write_established",
 			"emit_direct", "emit_session_initiator", "emit_session_receiver", "emitted_headers_parsed", "lib2lib_established",
 			"accept_direct", "accept_session", "valid_headers_accepted", "invalid_headers_refused", "refused:version", "refused:no-id", "refused:name", "refused:content-ns",
-			"restart_first_header_omits_address", "headers_omitting_address_accepted", "restart_own_headers_checked", "bind_initiator_header_omits_to", "bind_initiator_header_omits_from",
+			"restart_resplit_address_cases", "bind_assigned_edge_resource", "restart_first_header_omits_address", "headers_omitting_address_accepted", "restart_own_headers_checked", "bind_initiator_header_omits_to", "bind_initiator_header_omits_from",
 			"restart_cases", "restart_unchanged_established", "restart_changed_address_cases", "restart_changed_address_refused",
 			"restart_invalid_later_header:no-id", "restart_invalid_later_header:version", "restart_invalid_later_header_refused", "restart_id_changed_and_reported", "restart_header:version-equivalent",
 			"stream_error_cases", "bind_initiator_cases", "bind_requests_parsed", "bind_receiver_cases", "bind_replies_parsed", "bind_callback_invocations", "bind_bad_replies_refused",
